@@ -8,8 +8,8 @@ rm -rf $W; git -C /repo worktree prune; git -C /repo worktree add --detach $W HE
 cd $W && git apply $SRC/patch.diff || { echo "RESULT $NAME patch-does-not-apply"; exit 3; }
 BUILT=$(cd /verif && OCV_REPO=$W /verif/.venv/bin/python -m ocv.build 2>/tmp/confirm/$NAME.build.log | tail -1) || { echo "RESULT $NAME build-failed"; exit 3; }
 BASE=$(cd /verif && /verif/.venv/bin/python -m ocv.build | tail -1)
-PYTHONPATH=$BUILT timeout 300 /venv/bin/python $SRC/demo.py >/tmp/confirm/$NAME.demo_changed.log 2>&1; RC1=$?
-PYTHONPATH=$BASE timeout 300 /venv/bin/python $SRC/demo.py >/tmp/confirm/$NAME.demo_base.log 2>&1; RC0=$?
+(cd /tmp && PYTHONPATH=$BUILT timeout 600 /venv/bin/python $SRC/demo.py) >/tmp/confirm/$NAME.demo_changed.log 2>&1; RC1=$?
+(cd /tmp && PYTHONPATH=$BASE timeout 600 /venv/bin/python $SRC/demo.py) >/tmp/confirm/$NAME.demo_base.log 2>&1; RC0=$?
 cp $BUILT/optree/_C.cpython-312-x86_64-linux-gnu.so $W/optree/
 SUITE=$(cd $W && PYTHONPATH=$W timeout 3000 /venv/bin/python -m pytest -q -p no:cacheprovider --timeout=900 2>&1 | tail -1)
 echo "RESULT $NAME demo_changed_rc=$RC1 demo_unchanged_rc=$RC0 suite=[$SUITE]"
